@@ -166,6 +166,7 @@ structure Plugin (τ : Type) where
 structure Call (τ : Type) where
   name : Name
   args : List τ
+  deriving DecidableEq
 
 inductive RegErr where
   | add (plugin : Nat) (e : Err)   -- "Add Error: <plugin>: <SetFuncName error>"
